@@ -580,7 +580,7 @@ func c31runCase(e *c31env, c c31case) (viol [][2]string, detail string) {
 					okErr = gotErr == c31errDown
 				} else {
 					re, isRe := IsRedisErr(gotErr)
-					okErr = isRe && strings.HasPrefix(re.Error(), "ERR c31 injected")
+					okErr = isRe && strings.Contains(re.Error(), "c31 injected failure")
 				}
 			case "nx":
 				okErr = gotErr == ErrMSetNXNotSet
